@@ -200,6 +200,47 @@ def make_bruteforce_body(shape_names, max_splits, outcomes=("complete", "fail", 
     return body
 
 
+def make_orphan_prefix_body(shape_names):
+    """the run is interrupted inside a trial that has drawn only its FIRST parameter, and finished trials have already gone through
+    that same value and drawn the next parameter (so the tree knows the node is an inner node); the trial stays RUNNING for good. The
+    resumed run (default stop criterion) must still evaluate every combination exactly once and stop."""
+    def body():
+        sname = sx.choose(shape_names, "shape")
+        root = SHAPES[sname]
+        L = leaves(root)
+        rng = RNG()
+        evaluated = []
+
+        def objective(trial):
+            leaf = run_program(trial, root)
+            evaluated.append(leaf)
+            return float(len(evaluated))
+
+        def new_sampler():
+            s = BruteForceSampler(seed=0)
+            s._rng = Lazy(rng)
+            return s
+        study = optuna.create_study(sampler=new_sampler(), storage=InMemoryStorage())
+        k = 1 + sx.choose(len(L) - 1, "trials_before_the_interruption")
+        study.optimize(objective, n_trials=k)
+        t = study.ask()
+        name, kind, spec, _ = root
+        v = (t.suggest_int(name, spec[0], spec[1], step=spec[2]) if kind == "int" else
+             round(t.suggest_float(name, spec[0], spec[1], step=spec[2]), 10) if kind == "float" else t.suggest_categorical(name, list(spec)))
+        deeper = [lf for lf in evaluated if lf[0] == (name, v) and len(lf) > 1]
+        if not deeper:
+            sx.cur().abort()          # outside the case described above (the documented loose stop criterion may skip the branch)
+        study.sampler = new_sampler()
+        sx.note("scenario", dict(shape=sname, trials_before=k, orphan_prefix={name: v}, leaves=len(L)))
+        study.optimize(objective, n_trials=len(L) + 3 - k)
+        sx.reach("resumed")
+        assert sorted(map(repr, evaluated)) == sorted(map(repr, L)), \
+            f"after an interrupted trial left RUNNING with prefix {{{name!r}: {v!r}}}: evaluated {sorted(map(repr, evaluated))} vs combinations {sorted(map(repr, L))}"
+        assert len(study.get_trials(deepcopy=False)) == len(L) + 1, f"did not stop by itself: {len(study.get_trials(deepcopy=False))} trials"
+        return True
+    return body
+
+
 def make_early_failure_body(shape_names):
     """one trial of the run fails BEFORE it has drawn all its parameters (an exception between two suggest calls, or before the first):
     it has evaluated no combination, so every combination must still be evaluated exactly once by the other trials, the sampler must
@@ -368,6 +409,10 @@ def obligations(tier):
                           bounds=dict(shapes=3 if q else 5, splits=1, outcomes=3, avoid_premature_stop=True),
                           shard_depth=5, budget_s=1500, classify=classify, require_reach=["finished"],
                           describe="BruteForceSampler(avoid_premature_stop=True) in a sequential run: same statement"))
+    obs.append(Obligation("bruteforce-orphan-prefix", make_orphan_prefix_body(["flat-4", "deep-4", "cond-5"] if q else ["flat-4", "deep-4", "cond-5", "cond-8", "single-root-3"]), setup, CODE,
+                          bounds=dict(shapes=3 if q else 5, orphan="one RUNNING trial that drew only its first parameter, value already expanded by finished trials"),
+                          shard_depth=4, budget_s=1500, classify=classify, require_reach=["resumed"],
+                          describe="interrupted mid-trial (prefix drawn, left RUNNING), resumed with a fresh sampler: full coverage exactly once, stops"))
     obs.append(Obligation("bruteforce-early-failure", make_early_failure_body(["flat-4", "deep-4", "cond-5", "mixed-5"] if q else ["flat-4", "deep-4", "cond-5", "mixed-5", "cond-8", "single-root-3"]),
                           setup, CODE, bounds=dict(shapes=4 if q else 6, early_failures_per_run=1, failing_trial="any", failure_point="before any suggest call that is not the last of its path"),
                           shard_depth=4, budget_s=1500, classify=classify_early, require_reach=["early-failure"],
